@@ -435,6 +435,54 @@ def lossless(ctx, rep):
                             "C13:not-transparent", case)
 
 
+def names_oracle(ctx, rep):
+    """checkpoint files carry the documented name `<base>_<generation>.pkl` for EVERY base name (dots, several runs sharing a
+    directory whose base names differ only after a dot), load as the optimizer of that generation, and a run removes only its
+    own files"""
+    rng = ctx.rng
+    pairs = [("ck", "ckb"), ("sweep_noise0.1", "sweep_noise0.25"), ("model.v1", "model.v2"), ("run.pkl", "run.pkl2"), ("a.b.c", "a.b.d")]
+    with Recorder():
+        for ci in range(ctx.n(6, 30)):
+            name_a, name_b = pairs[ci % len(pairs)]
+            num = rng.choice([1, 2, 3])
+            freq = rng.choice([1, 2])
+            d = tempfile.mkdtemp(prefix="c13n_")
+            try:
+                case = {"base_names": [name_a, name_b], "num_checkpoints": num, "freq": freq}
+                rep.case(("names", name_a, name_b, num, freq, ci), True)
+                rep.count("checkpoint_base_names", name_a)
+                CLOCK.ms = 0
+                run_call(Scripted(mk_script(rng)), os.path.join(d, name_a), num, rng.choice([3, 5]), freq)
+
+                def own(name):
+                    out = {}
+                    for fn in os.listdir(d):
+                        if fn.startswith(name + "_") and fn.endswith(".pkl") and fn[len(name) + 1:-4].isdigit():
+                            out[fn] = open(os.path.join(d, fn), "rb").read()
+                    return out
+                files_a = own(name_a)
+                others = sorted(set(os.listdir(d)) - set(files_a))
+                if not files_a or others:
+                    rep.violate(f"a run with checkpoint_base_name '{name_a}' left the files {sorted(os.listdir(d))}: expected only "
+                                f"'{name_a}_<generation>.pkl'", "C13:checkpoint-name", case)
+                    continue
+                for fn in files_a:
+                    g = int(fn[len(name_a) + 1:-4])
+                    with warnings.catch_warnings():
+                        warnings.simplefilter("ignore")
+                        o = load_evolutionary_optimizer_from_file(os.path.join(d, fn))
+                    if o.generational_age != g:
+                        rep.violate(f"checkpoint '{fn}' holds generation {o.generational_age}", "C13:checkpoint-name", case)
+                CLOCK.ms = 0
+                run_call(Scripted(mk_script(rng)), os.path.join(d, name_b), num, rng.choice([3, 5, 7]), freq)
+                after = own(name_a)
+                if after != files_a:
+                    rep.violate(f"a second run with base name '{name_b}' in the same directory removed or rewrote checkpoints of the run "
+                                f"'{name_a}': {sorted(files_a)} -> {sorted(after)}", "C13:foreign-deleted", case)
+            finally:
+                shutil.rmtree(d, ignore_errors=True)
+
+
 def run(ctx, rep):
     rep.rule = ("checkpointed runs (num_checkpoints 1..3/None, frequencies 1..3, fresh and resumed-from-checkpoint) with a crash injected "
                 "before every file-system step; dump/load round trips of islands (int-list and AGraph) and serial archipelagos; "
@@ -444,6 +492,7 @@ def run(ctx, rep):
     rep.validated_only = ["lossless: load(dump(o)) == o on populations, fitness, flags, ages, constants, hall of fame, counts, diagnostics",
                           "transparent: identical continuation under the same numpy/random state"]
     rotation(ctx, rep)
+    names_oracle(ctx, rep)
     lossless(ctx, rep)
 
 
